@@ -2,6 +2,7 @@
 //! simulated io_uring kernel and prints canonical traces for the Lean model.
 
 mod comp;
+mod kc;
 mod sched;
 mod simk;
 mod track;
@@ -44,6 +45,10 @@ fn main() {
     // (A10H_PANICS=1 shows them, for debugging the harness itself)
     if std::env::var_os("A10H_PANICS").is_none() {
         std::panic::set_hook(Box::new(|_| {}));
+    }
+    if a.comp == "kc" {
+        // kernel-contract probes (diagnostic): `a10h kc --tier real|sim`
+        std::process::exit(kc::run(if a.tier == "sim" { "sim" } else { "real" }));
     }
     std::fs::create_dir_all(&a.out).unwrap();
     let _ = util::main_stack();
